@@ -22,13 +22,16 @@ for p in allp:
         engine="coq-model+differential",
         level_claimed=dict(
             category="proof",
-            text=P.get("level_text", "Coq theorems (Props/%s.v) over a hand-written Gallina model, for all inputs and both build profiles; "
-                       "the model is tied to /repo on every run by a differential correspondence run (extracted oracle vs Rust harness "
-                       "rebuilt from the working tree)." % pid),
+            text=P.get("level_text", "Coq theorems (Props/%s.v) over a Gallina model, for all inputs and both build profiles; the model is tied to "
+                       "/repo on every run in two ways: its declarative part (struct declarations, enum tables, constants, conversion "
+                       "match tables) is regenerated from the Rust source by tools/rs2coq.py and proved equal to the hand-written model "
+                       "for all arguments (coq/Tie); its operational part is hand-written and compared with the crates by a differential "
+                       "correspondence run (extracted oracle vs Rust harness rebuilt from the working tree)." % pid),
             design_ref="DESIGN.md section 6, " + pid),
-        level_note=P.get("level_note", "trusted: Coq 8.16.1 kernel; no axioms (Print Assumptions audited each run); the model is hand-written "
-                         "and validated against the crates by sampling (generators described in the evidence); extraction/OCaml used for the "
-                         "oracle only, cross-checked by vm_compute in Coq on a sample of each run; rustc/LLVM and the OS are outside the model."),
+        level_note=P.get("level_note", "trusted: Coq 8.16.1 kernel; no axioms (Print Assumptions audited each run); the operational model is hand-written "
+                         "and validated against the crates by sampling (generators described in the evidence); the translator tools/rs2coq.py "
+                         "for the declarative part; extraction/OCaml used for the oracle only, cross-checked by vm_compute in Coq on a sample "
+                         "of each run; rustc/LLVM and the OS are outside the model."),
         technique="machine-checked proof in Coq (Rocq) + model/implementation correspondence check"))
 na = [dict(property_id=p["id"], reason=props.NOT_APPLICABLE.get(p["id"], "check under construction (model and theorems not yet written); see DESIGN.md"))
       for p in allp if p["id"] not in props.PROPS]
